@@ -23,6 +23,7 @@ HAVE_NETWORKX = importlib.util.find_spec("networkx") is not None
 
 EXACT = ("Circuit", "CircuitDense")
 MPS = ("CircuitMPS", "CircuitPermMPS", "CircuitMPSLazy")
+SPARSE_VOCAB = ["H", "X", "X", "CX", "CX", "CNOT", "CZ", "Z", "S", "CCX", "SWAP", "CY", "Y", "CSWAP", "T", "IDEN"]
 P1 = np.array([[0.0, 0.0], [0.0, 1.0]])
 SWAP_M = np.array([[1, 0, 0, 0], [0, 0, 1, 0], [0, 1, 0, 0], [0, 0, 0, 1]], dtype=complex)
 
@@ -65,7 +66,7 @@ class CircuitWorld(World):
     NAME = "circuit"
     LEVEL = "exploration"
     SIM_TIME_UNIT = "operations (public calls and generator advances)"
-    RUNS = {"quick": 8000, "thorough": 250000}
+    RUNS = {"quick": 4000, "thorough": 120000}
     WALL_CAP = {"quick": 1200, "thorough": 3300}
     SHRINK_BUDGET = 60
     RULE = (
@@ -109,6 +110,7 @@ class CircuitWorld(World):
             "controls": r.random() < 0.6,
             "cutoff0": r.random() < 0.5,
             "dtype128": r.random() < 0.5,
+            "vocab": r.choice(["all", "all", "sparse"]),
         }
 
     # ------------------------------------------------------------------ setup
@@ -156,6 +158,8 @@ class CircuitWorld(World):
         "samplers": dict(gate=5, query=3, sampler=4, gen_next=6, copy=1, set_params=0.5, new=0.5, reject=0.5, apply_gates=0.5),
         "mixed": dict(gate=8, query=6, sampler=2, gen_next=3, copy=1.5, set_params=1, new=1, reject=1, apply_gates=1),
     }
+    for _t in TABLES.values():
+        _t["sample_now"] = _t["sampler"]
     QUERIES_EXACT = ["to_dense", "amplitude", "partial_trace", "local_expectation", "compute_marginal",
                      "psi_simplified", "rdm_lightcone", "uni", "local_expectation_list"]
     QUERIES_MPS = ["to_dense", "amplitude", "partial_trace", "local_expectation", "compute_marginal",
@@ -164,11 +168,14 @@ class CircuitWorld(World):
     def _draw_gate(self, r, N, cls):
         G = self.G
         c = r.random()
-        if c < 0.12:
+        sparse = self.knobs.get("vocab") == "sparse"
+        if c < 0.12 and not sparse:
             nq = r.choice([1, 1, 2]) if N >= 2 else 1
             g = {"label": "RAW", "nq": nq, "raw_seed": r.randrange(2**31)}
         else:
-            label = pick(r, self._gate_labels)
+            # "sparse": gates that keep many amplitudes exactly zero, so that
+            # a sample from a wrong distribution shows as an unsupported string
+            label = pick(r, SPARSE_VOCAB) if sparse else pick(r, self._gate_labels)
             nq = G.GATE_SIZE[label]
             if nq > N:
                 label = pick(r, sorted(G.ONE_QUBIT_GATES))
@@ -232,6 +239,10 @@ class CircuitWorld(World):
                     "order_seed": r.choice([None, r.randrange(2**31)])}
         if k == "gen_next":
             return {"k": "gen_next", "circ": ci, "g": r.randrange(4), "abandon": r.random() < 0.2}
+        if k == "sample_now":
+            return {"k": "sample_now", "circ": ci, "C": r.choice([2, 4, 8]), "seed": r.randrange(2**31),
+                    "order_seed": r.choice([None, r.randrange(2**31), r.randrange(2**31)]),
+                    "nsub": r.choice([None, None, max(1, N - 1)]), "group_size": r.choice([1, 1, 2, 10])}
         # query
         q = pick(r, self.QUERIES_EXACT if cls in EXACT else self.QUERIES_MPS)
         op = {"k": "query", "circ": ci, "q": q, "seed": r.randrange(2**31),
@@ -338,7 +349,7 @@ class CircuitWorld(World):
             for g in old["gens"]:
                 g["it"].close()
         self.circs.append({"obj": obj, "cls": cls, "N": N, "applied": [], "gens": [],
-                           "contract": op.get("contract")})
+                           "contract": op.get("contract"), "compress_every": op.get("compress_every", 2)})
         self.note("new", cls)
 
     def _call_gate(self, c, g, via="apply_gate"):
@@ -461,7 +472,7 @@ class CircuitWorld(World):
             for g in old["gens"]:
                 g["it"].close()
         self.circs.append({"obj": new, "cls": c["cls"], "N": c["N"], "applied": list(c["applied"]), "gens": [],
-                           "contract": c.get("contract")})
+                           "contract": c.get("contract"), "compress_every": c.get("compress_every", 2)})
         self.stats.fault("fork")
         self.note("copy")
 
@@ -501,6 +512,12 @@ class CircuitWorld(World):
 
     # .. queries ..................................................................
     def _tol(self, c):
+        # the MPS classes split with the documented default cutoff 1e-10 on
+        # the discarded weight (cutoff_mode rsum2 / the "dm" compression of the
+        # lazy class): a state error up to ~1e-5 per split is inside the
+        # property; with cutoff=0 and for the exact classes 1e-6
+        if c["cls"] in MPS and not self.knobs["cutoff0"]:
+            return 2e-4
         return 1e-6
 
     def _op_query(self, op):
@@ -713,6 +730,81 @@ class CircuitWorld(World):
             g["it"].close()
         self.note("sampler", kind)
 
+    def _replica(self, c):
+        """A fresh circuit of the same class and options holding the same
+        recorded gates: what the queries are allowed to depend on."""
+        qtn = self.qtn
+        cls = c["cls"]
+        N = c["N"]
+        cutoff = 0.0 if self.knobs["cutoff0"] else 1e-10
+        if cls == "Circuit":
+            new = qtn.Circuit(N, gate_opts={"contract": c.get("contract") if c.get("contract") is not None else "auto-split-gate"})
+        elif cls == "CircuitDense":
+            new = qtn.CircuitDense(N)
+        elif cls == "CircuitMPS":
+            new = qtn.CircuitMPS(N, cutoff=cutoff)
+        elif cls == "CircuitPermMPS":
+            new = qtn.CircuitPermMPS(N, cutoff=cutoff)
+        else:
+            new = qtn.CircuitMPSLazy(N, cutoff=cutoff, compress_every=c.get("compress_every", 2))
+        rc = {"obj": new, "cls": cls, "N": N, "applied": [], "gens": []}
+        for g in c["applied"]:
+            self._call_gate(rc, g)()
+        return new
+
+    def _op_sample_now(self, op):
+        """History independence, directly: a seeded sampler run to completion
+        on the live circuit (whatever it has cached) and on a fresh replica of
+        its recorded gates must give the same samples.  Exact classes only in
+        double precision (in single precision a cached and a recomputed
+        conditional may differ in the last bits and flip a draw)."""
+        c = self._circ(op)
+        circ = c["obj"]
+        N = c["N"]
+        cls = c["cls"]
+        kn = self.knobs
+        if any(g["label"] == "RAW" and False for g in c["applied"]):
+            raise Skip()
+        if cls in EXACT:
+            kw = dict(seed=op["seed"], group_size=op["group_size"], max_marginal_storage=kn["storage"],
+                      dtype="complex128", simplify_atol=1e-12)
+            qubits = None
+            if op.get("nsub"):
+                qubits = [int(x) for x in data_rng(op["seed"] + 1).permutation(N)[: op["nsub"]]]
+                kw["qubits"] = qubits
+            if op.get("order_seed") is not None:
+                base = qubits if qubits is not None else list(range(N))
+                perm = data_rng(op["order_seed"]).permutation(len(base))
+                kw["order"] = [base[int(i)] for i in perm]
+            f = lambda cc: list(cc.sample(op["C"], **kw))
+        else:
+            qubits = None
+            f = lambda cc: list(cc.sample(op["C"], seed=op["seed"]))
+        st, got = self.call(lambda: f(circ))
+        if st == "rejected":
+            self.note("sample_now_rejected")
+            return
+        st2, rep = self.call(lambda: self._replica(c))
+        if st2 == "rejected":
+            raise Skip()
+        st3, want = self.call(lambda: f(rep))
+        if st3 == "rejected":
+            raise Violation(f"C07/sampler_raised:sample:{cls}", f"fresh replica refused what the live circuit accepted: {want!r}")
+        psi = self.model_state(c)
+        nq = len(qubits) if qubits is not None else N
+        for s_ in got:
+            if not (isinstance(s_, str) and len(s_) == nq):
+                raise Violation(f"C07/sample_format:sample", repr(s_))
+            if qubits is None and abs(psi[int(s_, 2)]) ** 2 < 1e-7:
+                raise Violation(f"C07/sample_support:sample:{cls}",
+                                f"sampled {s_} which has probability {abs(psi[int(s_, 2)]) ** 2:.3g} [{len(c['applied'])} gates]")
+        if got != want:
+            raise Violation(f"C07/sample_history_dependent:{cls}",
+                            f"seeded sample() on the live circuit gave {got} but {want} on a fresh circuit holding the same "
+                            f"{len(c['applied'])} gates (same seed and arguments)")
+        self.stats.probe("sample_now_checked")
+        self.note("sample_now", len(got))
+
     def _op_gen_next(self, op):
         c = self._circ(op)
         if not c["gens"]:
@@ -733,6 +825,15 @@ class CircuitWorld(World):
             c["gens"].remove(g)
             raise
         if st == "rejected":
+            hist = g.get("history", [])
+            changed = bool(hist) and (hist[-1][0] != len(c["applied"]) or maxdiff(hist[-1][1], psi) > 0)
+            c["gens"].remove(g)
+            if changed:
+                # a suspended sampler continued after the circuit changed: what
+                # it should do is unspecified (see the support rule below);
+                # refusing is as good as any answer
+                self.stats.probe("suspended_sampler_refused_after_change")
+                return
             raise Violation(f"C07/sampler_raised:{g['kind']}:{c['cls']}", repr(s))
         if s is None:
             if g["left"] != 0:
